@@ -308,8 +308,14 @@ impl LogState {
             // printed but the target it announces was never followed: all of that target's
             // output was missing, live and in later replays.  Split such a line: the text
             // in front is an (unterminated) line of this target, the rest is the record.
-            if let Some(pos) = line.find("@@REDO:") {
-                if pos > 0 && Meta::parse(line[pos..].trim_end_matches('\n')).is_ok() {
+            // (The text in front may itself contain the characters a record starts with:
+            // try every place, not only the first.)
+            let record_at = line
+                .match_indices("@@REDO:")
+                .map(|(pos, _)| pos)
+                .find(|&pos| pos > 0 && Meta::parse(line[pos..].trim_end_matches('\n')).is_ok());
+            if let Some(pos) = record_at {
+                {
                     if auto_bool_arg(&matches, "details").unwrap_or(true) {
                         if interrupted != 0 {
                             let d = logs::reduce_depth();
@@ -395,9 +401,10 @@ impl LogState {
                             }
                             self.already.insert(fixname);
                         }
-                        "done" => {
-                            let (rv, name) =
-                                g.done_text().expect("improperly formatted done entry");
+                        // (A "done" record whose text is not "<status> <name>" is not one of
+                        // ours -- a build script wrote it to stderr: plain text, below.)
+                        "done" if g.done_text().is_some() => {
+                            let (rv, name) = g.done_text().unwrap();
                             logs::meta(
                                 g.kind(),
                                 &format!(
